@@ -33,7 +33,7 @@ TECHNIQUE = "deterministic simulation: exception injection at every call index o
 DESIGN_REF = "DESIGN.md 4.11"
 BUDGET = {
     "quick": {"plans": 500, "wall": 90, "chunk": 4},
-    "thorough": {"plans": 20000, "wall": 900, "chunk": 8},
+    "thorough": {"plans": 20000, "wall": 900, "chunk": 2},
 }
 RULE = (
     "one plan = (problem, configuration with all actor kinds enabled, optional restart); one evaluation = one "
